@@ -17,7 +17,7 @@ RULE = (
 ASSUMPTIONS = ["reference CRC (two cross-checked implementations) and own header arithmetic are the oracle"]
 GATES = ["serialize_checked", "reparse_checked", "frame_roundtrip_checked", "repr_checked", "lengths_enumerated",
          "alias_families", "reader_roundtrip_checked", "noncanonical_source_checked", "frame_as_payload",
-         "msm_mask_limit_shapes"]
+         "msm_mask_limit_shapes", "steered_checksums"]
 
 NASTY = bytes([0x27, 0x22, 0x5C, 0x00, 0x0A, 0x0D, 0x7F, 0x80, 0xFF, 0x7B, 0x7D, 0x25])
 
@@ -80,6 +80,12 @@ def one(ctx, payload, label):
                       f"{want[:6].hex()}..{want[-3:].hex()} (differs in {where})", params)
         return
     num = ((payload[0] << 4) | (payload[1] >> 4)) if len(payload) >= 2 else -1
+    if len(payload) > 6 and zlib.crc32(payload) % 3 == 0:
+        # between serialising and parsing back, a TRUNCATED payload of the same identity is offered (and refused)
+        try:
+            RTCMMessage(payload=payload[: max(3, len(payload) // 2)])
+        except Exception:
+            ctx.hit("failed_decode_of_same_identity_between")
     if num in refmsm.MSM_NUMBERS:
         # between serialising and parsing back, the same MSM body arrives from ANOTHER constellation (same masks)
         others = [n for n in refmsm.MSM_NUMBERS if n % 10 == num % 10 and n != num]
@@ -222,6 +228,14 @@ def run(ctx):
         if len(pl) <= 1023:
             one(ctx, pl, "frame-as-payload")
             ctx.hit("frame_as_payload")
+    # frames whose CHECKSUM BYTES have chosen values (zero bytes, CR LF, sync bytes, '%', quotes, leading zeros ...)
+    for _ in range(ctx.n(12, 200)):
+        for t in streams.STEER_TARGETS:
+            base = streams.rand_defined_payload(rng) if rng.random() < 0.5 else streams.rand_unknown_payload(
+                rng, rng.randint(2, 40))
+            if len(base) <= 1020:
+                one(ctx, streams.steer_payload(base, t), f"crc={t:06x}")
+                ctx.hit("steered_checksums")
     # defined identities at natural length and padded
     ids = [i for i in refmodel.identities() if refmodel.reachable(i)]
     for k, identity in enumerate(ids):
